@@ -385,7 +385,7 @@ def main():
             r2 = sh([v['exe'], '--replay', path])
             o1 = re.findall(r'^OUTCOME sig=(\S+)', r1.stdout, re.M)
             o2 = re.findall(r'^OUTCOME sig=(\S+)', r2.stdout, re.M)
-            if r1.returncode != 1 or r2.returncode != 1 or o1 != o2 or sig not in o1:
+            if r1.returncode not in (1, 3) or r2.returncode != r1.returncode or o1 != o2 or sig not in o1:
                 harness_errors.append(f'replay of {sig} case {v["case"]} is not reproducible (rc {r1.returncode}/{r2.returncode})')
                 continue
         new_viol.append(dict(signature=sig, detail=v['detail'][:1500], scenario=v['scenario'], replay=path, occurrences=total,
